@@ -109,6 +109,33 @@ INT_W = {"usize": 64, "isize": 64, "u64": 64, "i64": 64, "u32": 32, "i32": 32, "
 SIGNED = {"isize", "i64", "i32", "i16", "i8", "i128"}
 
 
+def unescape_rust(lit):
+    """decode the escapes of a Rust string / char literal as printed in MIR"""
+    out = []
+    i = 0
+    simple = {"n": "\n", "t": "\t", "r": "\r", "0": "\0", "\\": "\\", "'": "'", '"': '"'}
+    while i < len(lit):
+        ch = lit[i]
+        if ch != "\\":
+            out.append(ch)
+            i += 1
+            continue
+        nx = lit[i + 1]
+        if nx in simple:
+            out.append(simple[nx])
+            i += 2
+        elif nx == "x":
+            out.append(chr(int(lit[i + 2:i + 4], 16)))
+            i += 4
+        elif nx == "u":
+            j = lit.index("}", i)
+            out.append(chr(int(lit[i + 3:j], 16)))
+            i = j + 1
+        else:
+            raise Unsupported(f"escape in literal {lit!r}")
+    return "".join(out)
+
+
 def bv(x, w=64):
     return z3.BitVecVal(x, w)
 
@@ -961,6 +988,10 @@ class Engine:
             import struct
             x = float(m.group(1).replace("NaN", "nan"))
             return bv(struct.unpack("<Q", struct.pack("<d", x))[0], 64)
+        if len(c) >= 3 and c[0] == "'" and c[-1] == "'":
+            chars = unescape_rust(c[1:-1])
+            if len(chars) == 1:
+                return bv(ord(chars[0]), 32)
         if c.startswith('"') or c.startswith("b\""):
             lit = c[2:-1] if c.startswith("b") else c[1:-1]
             n = len(re.sub(r"\\(x[0-9a-fA-F]{2}|u\{[0-9a-fA-F]+\}|.)", "X", lit))
@@ -1459,6 +1490,8 @@ class Engine:
             return [("leaf", Leaf(ctx, r.status, detail=r.detail))]
         if isinstance(r, TailCall):
             return self.call_value(ctx, f, r.callee, r.args, dest, ret_bb, None)
+        if isinstance(r, Script):
+            return self.run_model_script(ctx, r, dest, ret_bb)
         if isinstance(r, Unwind):
             return self.unwind(ctx)
         if dest is not None:
@@ -1467,6 +1500,52 @@ class Engine:
             return [("leaf", Leaf(ctx, "panic", detail="diverging call"))]
         f.bb = ret_bb
         return None
+
+    def run_model_script(self, ctx, script, dest, ret_bb):
+        out = []
+        work = [(ctx, [])]
+        while work:
+            c, replay = work.pop()
+            gen = script.fn(c)
+            try:
+                req = next(gen)
+                for r in replay:
+                    req = gen.send(r)
+            except StopIteration as stop:
+                r2 = self.finish_call(c, c.frames[-1], stop.value, dest, ret_bb)
+                out.extend(r2 if r2 is not None else [("ctx", c)])
+                continue
+            if req[0] != "callv":
+                raise Unsupported(f"model script request {req[0]}")
+            callee, args = req[1], list(req[2])
+            base = len(c.frames)
+            if isinstance(callee, Closure):
+                b = self.prog.closures.get(callee.span)
+                if b is None:
+                    raise Unsupported(f"closure body for {callee.span} not found")
+                first = callee
+                if b.args and b.args[0][1].startswith("&"):
+                    tmp = 820000 + len(self.events) + len(c.frames) * 1000 + len(replay)
+                    c.frames[-1].locals[tmp] = callee
+                    first = Ptr(("local", c.frames[-1].fid, tmp))
+                self.push_frame(c, b, [first] + args, None)
+            elif hasattr(callee, "blocks"):
+                self.push_frame(c, callee, args, None)
+            else:
+                raise Unsupported(f"model script call of {callee}")
+            merging, self.merging = self.merging, False
+            try:
+                leaves = self.drive(c, base)
+            finally:
+                self.merging = merging
+            for x in leaves:
+                if x.status == "done":
+                    work.append((x.ctx, replay + [x.ret]))
+                else:
+                    out.append(("leaf", x))
+            if len(work) + len(out) > self.max_paths:
+                raise Unsupported("path explosion in a model script")
+        return out
 
     def unwind(self, ctx):
         """a panic propagates: continue at the unwind target of the call being executed in the top frame; frames
@@ -1690,6 +1769,8 @@ def vrepr(v):
     if isinstance(v, Native):
         if isinstance(v.data, list):
             return f"N[{v.kind}]" + ",".join(vrepr(x) for x in v.data)
+        if isinstance(v.data, tuple) and v.kind in ("sstr", "chars", "strvec", "sliceiter"):
+            return f"N[{v.kind}]" + vrepr(v.data)
         return f"N[{v.kind}]{id(v.data)}"
     if isinstance(v, tuple):
         return "(" + ",".join(vrepr(x) for x in v) + ")"
@@ -1856,6 +1937,15 @@ class TailCall:
     """model result: perform this call (closure / fn item / native) in place of the modelled callee"""
     def __init__(self, callee, args):
         self.callee, self.args = callee, args
+
+
+class Script:
+    """model result: the modelled callee performs several calls of real code (closures / bodies) in sequence. `fn(ctx)` is a
+    generator: `yield ("callv", closure_or_body, [args])` -> return value of that call; its own return value is the result of
+    the modelled call. A fork inside a step re-plays the generator on each alternative (so it must be deterministic and do its
+    loads/stores through the ctx it is given)."""
+    def __init__(self, fn):
+        self.fn = fn
 
 
 class Unwind:
